@@ -90,6 +90,7 @@ def gen_case(prng: Prng, tier: str, i: int) -> dict:
             region=prng.choice(["box", "wrap", "npole", "spole", "wide", "strip"]),
             has_w=prng.chance(1, 2), has_z=prng.chance(1, 3),
             w_dtype=prng.choice(["f8", "f8", "i4"]),
+            boundary=prng.chance(1, 3),  # a tenth of the records within 1e-9 .. 1e-7 rad of a patch boundary
         ),
         source=prng.choice(["df", "df", "hdf5", "parquet", "fits"]),
         patch=dict(mode=mode, k=k, center_seed=prng.below(1 << 20), pid_dtype="i8", pid_scramble=False,
